@@ -179,6 +179,20 @@ fn parse_response(raw: &[u8]) -> std::io::Result<HttpResponse> {
         })
         .collect();
 
+    // The exchange is `Connection: close`, so EOF ends the body. A peer that
+    // declared more bytes than arrived was cut off mid-body: that is a failed
+    // fragment, never a short success.
+    let headers: Vec<(String, String)> = headers;
+    if let Some(declared) = headers
+        .iter()
+        .find(|(k, _)| k == "content-length")
+        .and_then(|(_, v)| v.parse::<usize>().ok())
+    {
+        if body.len() < declared {
+            return Err(invalid("response body shorter than its Content-Length"));
+        }
+    }
+
     Ok(HttpResponse {
         status,
         headers,
